@@ -129,7 +129,7 @@ def run_shard(spec):
     if spec['kind'] == 'scale':
         # scale grids (gen/scale.py): counts and sizes across the thresholds of frame offsets, element counts and label numbers
         words = (2, 3, 4, 8)
-        for k, tag, prog, argsets in common.scale_items(('locals', 'params', 'array', 'labels', 'nesting', 'globals')):
+        for k, tag, prog, argsets in common.scale_items(('locals', 'params', 'array', 'labels', 'nesting', 'globals', 'entry')):
             if k % spec['parts'] != spec['part']:
                 continue
             j = k // spec['parts']
